@@ -418,6 +418,20 @@ func c15Gen(seed int, illegal int) *c15Graph {
 	for _, gn := range main.globals {
 		g.mainBody = append(g.mainBody, "print-own:"+gn)
 	}
+	// an imported function started as a thread (last statement: main prints nothing after it)
+	if r.Intn(4) == 0 {
+		var fns []string
+		for _, from := range main.impOrder {
+			for _, it := range main.imports[from] {
+				if g.mod(from) != nil && g.mod(from).fn(it) != nil {
+					fns = append(fns, it)
+				}
+			}
+		}
+		if len(fns) > 0 {
+			g.mainBody = append(g.mainBody, "spawn:"+fns[r.Intn(len(fns))])
+		}
+	}
 	// overlap class
 	fnOwners, globOwners := map[string]int{}, map[string]int{}
 	for _, m := range g.mods {
@@ -635,6 +649,8 @@ func (g *c15Graph) sources() Program {
 				switch kind {
 				case "call":
 					fmt.Fprintf(&b, "    %s();\n", arg)
+				case "spawn":
+					fmt.Fprintf(&b, "    spawn %s();\n", arg)
 				case "print-import":
 					fmt.Fprintf(&b, "    println(\"main sees imported\", \"%s\", %s);\n", arg, arg)
 				case "print-own":
@@ -729,7 +745,7 @@ func (g *c15Graph) expected() []string {
 	for _, st := range g.mainBody {
 		kind, arg, _ := strings.Cut(st, ":")
 		switch kind {
-		case "call":
+		case "call", "spawn":
 			call(main, arg, 0)
 		case "print-import":
 			from, _ := main.imported(arg)
